@@ -15,6 +15,7 @@ THEOREMS = [
     "C21.behavior_then_like_subject",
     "C21.behavior_late_terminal_only",
     "C21.behavior_after_dispose",
+    "C21.behavior_natural",
     "C21.run_reachable",
 ]
 KIND = "behavior"
